@@ -24,6 +24,8 @@ var (
 	ErrSwapDoesNotExist = errors.New("swap does not exist")
 	// ErrSwapIdInUse is returned for a request that reuses the id of a swap this node already knows.
 	ErrSwapIdInUse = errors.New("swap id is already in use")
+	// ErrSwapIdMissing is returned for a request that carries no swap id.
+	ErrSwapIdMissing = errors.New("swap id is missing")
 	// ErrEmptyMessage is returned for a payload that decodes to no message (JSON null).
 	ErrEmptyMessage = errors.New("empty peerswap message")
 )
@@ -583,6 +585,12 @@ func (s *SwapService) OnSwapInRequestReceived(swapId *SwapId, peerId string, mes
 		premiumValue int64
 		err          error
 	)
+	// A request without an id ("swap_id": null or no such field) would be
+	// locked in under the empty id: its first store write fails and the lock on
+	// the channel it names would never be released.
+	if swapId == nil {
+		return ErrSwapIdMissing
+	}
 	// A request must not reuse the id of a swap we already know, whether it is
 	// active, finished or not yet restored after a restart.
 	if known, err := s.swapIdKnown(swapId); err != nil {
@@ -704,6 +712,12 @@ func (s *SwapService) OnSwapOutRequestReceived(swapId *SwapId, peerId string, me
 		premiumValue int64
 		err          error
 	)
+	// A request without an id ("swap_id": null or no such field) would be
+	// locked in under the empty id: its first store write fails and the lock on
+	// the channel it names would never be released.
+	if swapId == nil {
+		return ErrSwapIdMissing
+	}
 	// A request must not reuse the id of a swap we already know, whether it is
 	// active, finished or not yet restored after a restart.
 	if known, err := s.swapIdKnown(swapId); err != nil {
